@@ -113,9 +113,11 @@ func (c *Ctx) Floor(rule string, found, floor int) {
 	}
 }
 
-func (c *Ctx) Note(format string, a ...interface{}) { c.Notes = append(c.Notes, fmt.Sprintf(format, a...)) }
-func (c *Ctx) Assumption(s string)                   { c.Assume = append(c.Assume, s) }
-func (c *Ctx) Analysed(fn string)                    { c.Funcs[fn] = true }
+func (c *Ctx) Note(format string, a ...interface{}) {
+	c.Notes = append(c.Notes, fmt.Sprintf(format, a...))
+}
+func (c *Ctx) Assumption(s string) { c.Assume = append(c.Assume, s) }
+func (c *Ctx) Analysed(fn string)  { c.Funcs[fn] = true }
 
 // ---------------- known findings ----------------
 
